@@ -49,15 +49,19 @@ func accessPath(v ssa.Value) string {
 }
 
 func checkC04(c *core.Ctx, r *core.Report) {
-	r.Explanation = "C04 (aggregations equal the mathematical aggregate), tables and gates only: " +
+	r.Explanation = "[ACCUM — every min/max fold into a struct field reads the field it writes (a running extreme is not recomputed from another field)] C04 (aggregations equal the mathematical aggregate), tables and gates only: " +
 		"(1) TAGUNION — sutils.NumTypeEnclosure is a tagged union (Ntype, IntgrVal, FloatVal): in every function that tests the tag of a union value, each read of a member of that same value lies where the tag is known to select that member (FloatVal under Ntype == float, IntgrVal where Ntype is known not to be float): a running sum/min/max is never taken from the member that does not hold it; " +
 		"(2) DEPENDS — the pre-computed segment statistics (SST) fast path is gated on match-all ∧ segment fully enclosed ∧ no eval/values()/list()/non-ingest statistic (shared with C03); " +
 		"(3) TABLE — the statistics file writer (writeSstToBuf) and reader agree on the version byte they write/accept; " +
+		"(7) DCBYTES — the bytes hashed into a numeric column's distinct-count sketch at ingest are the 8 value bytes of the number's encoding, the same bytes the query-time recomputation hashes; (5) FLOORSNAP — a signed integer snap of a difference to a multiple of the span lies where the difference is known non-negative; (6) USAGEJOIN — the fold of a stats command's measures into per-column usage modes never lowers an entry; " +
 		"(4) SCRATCH — the scratch map that PopulateFieldToValueFromMeasureResults fills for an eval aggregate holds exactly the measure's fields at every success return (an abstract interpretation over the facts keys ⊆ fields and fields ⊆ keys): its callers reuse the map across measures and records and take the number of result slots from len(map)."
 	r.NotCovered = "any numeric result, bucket boundaries, group-key uniqueness, sparse/mixed-type group-by behaviour, sketch error, the bookkeeping of per-measure result slots beyond the scratch-map clause"
 
+	checkRunningExtremes(c, r)
+
 	c04FloorSnap(c, r)
 	c04UsageLattice(c, r)
+	c04DistinctCountBytes(c, r)
 
 	nte := c.NamedType(pkgSutils, "NumTypeEnclosure")
 	st := nte.Underlying().(*types.Struct)
